@@ -186,6 +186,18 @@ ORIGIN = {
  'C10-node-changes-planned-before-keyed-changes': 'rule added after this seed exposed the gap (C10 9a: keyed changes of a set are planned before its node changes)',
 }
 NEEDS.update({
+ 'C20-dedup-consults-previous-table-only': 'a source closed in the middle of a SECOND consecutive index growth (three index files), the oldest table holding more than one reindex batch, entries copied from the oldest table straight into the current one; a ref-counted destination shows doubled counts',
+ 'C12-sync-through-clone-outside-the-lock': 'the log worker appending a record between the flush worker\'s fdatasync and its re-lock of the appending slot, the file enacted, then power loss',
+ 'C03-failed-sync-drops-the-file-again': 'an I/O error exactly at the fdatasync of the write-ahead log with more commits queued, then a power loss or continued stage processing',
+ 'C16-torn-append-keeps-the-file-with-a-fresh-buffer': 'an I/O fault in the append of a record larger than the 8 KiB writer buffer (after the first spill), an earlier whole record in the same file, one more turn of flush and enact on fault-free threads',
+})
+ORIGIN.update({
+ 'C20-dedup-consults-previous-table-only': 'rule added after this seed exposed the gap (C20 4y: the list of already walked tables that the per-table walk consults is the whole prefix of the walk order) - a seed against the F41 repair of the same session',
+ 'C12-sync-through-clone-outside-the-lock': 'rule added after this seed exposed the gap (C12 1h / C03 6h: one write guard of Log.appending spans the sync and the removal of the file from the slot)',
+ 'C03-failed-sync-drops-the-file-again': 'rules existed (1u/2u and the log-handle linearity 1Le/2Le, written for F82 two hours earlier): the seed re-introduces F82 for the sync alone; C03 had not been given the rule and got it (6u)',
+ 'C16-torn-append-keeps-the-file-with-a-fresh-buffer': 'rule added after this seed exposed the gap (k2: nothing is stored back into Log.appending on the error arm of the append; rule k had accepted take() followed by a refill as "given up")',
+})
+NEEDS.update({
  'C10-increment-once-per-parent': 'a live tree A that owns node X, a new tree B with ONE node listing Existing(X) twice or more, and the removal of B while A is still live',
  'C12-flush-skips-when-map-locked': 'the cleanup stage running exactly while the applier is inside a table-file grow, an enacted and not yet cleaned log that wrote to that table, then power loss',
  'C16-log-counted-cleaned-before-truncation': 'an I/O fault exactly at the rewind / set_len of the OLDEST log in the cleanup step, a younger enacted log queued behind it, shutdown on a thread where I/O works, both logs touching a common entry',
